@@ -131,6 +131,9 @@ def eval_layout(case):
         df0['amp_consistency'] = compute_amp_consistency(df0)
         df0['period_consistency'] = compute_period_consistency(df0)
         # the row index as earlier steps may have left it: default, offset labels (limit_df / slicing), duplicates (concat)
+        if (sum(c for c, m in case) + n) % 4 == 2:
+            df0['Label'] = 'chan-1'                   # an unrelated user column
+            df0 = df0[list(df0.columns[::-1])]        # columns in another order
         ik = (sum(c for c, m in case) + n + (centre == 'trough')) % 3
         if ik == 1:
             df0.index = range(5, 5 + n)
